@@ -78,6 +78,40 @@ fn sparse_and_out_of_range(sort: usize) {
     cover!(y > x + 1);
 }
 
+/// The binders of the answer carry universes too (added after seeded change R4-C16-a, which
+/// capped them at the highest recorded universe): with the sparse map `[root, x, y]`, binders in
+/// canonical universes 1, 2, 3, 4 go back to x, y, y + 1, y + 2 — the same universes as the
+/// placeholders of those canonical universes — and keep their kinds.
+fn binders_follow_the_map() {
+    let x = sym::usize();
+    let y = sym::usize();
+    sym::assume(0 < x && x < y && y < usize::MAX - 4);
+    let m = UniverseMap { universes: vec![u(0), u(x), u(y)] };
+    let binders = CanonicalVarKinds::from_iter(
+        I,
+        [
+            WithKind::new(VariableKind::Ty(TyVariableKind::General), u(1)),
+            WithKind::new(VariableKind::Lifetime, u(2)),
+            WithKind::new(VariableKind::Ty(TyVariableKind::Integer), u(3)),
+            WithKind::new(VariableKind::Lifetime, u(4)),
+        ],
+    );
+    let c = Canonical { value: subst(&[leaf(0, 3, 0)]), binders };
+    let back = m.map_from_canonical(I, &c);
+    let b = back.binders.as_slice(I);
+    assert!(b.len() == 4);
+    assert!(*b[0].skip_kind() == u(x), "C16: binder in canonical universe 1 of a sparse map");
+    assert!(*b[1].skip_kind() == u(y), "C16: binder in canonical universe 2 of a sparse map");
+    assert!(*b[2].skip_kind() == u(y + 1), "C16: binder in an out-of-range canonical universe must map above every recorded universe");
+    assert!(*b[3].skip_kind() == u(y + 2), "C16: binders in out-of-range canonical universes keep their order");
+    assert!(matches!(b[0].kind, VariableKind::Ty(TyVariableKind::General)) && matches!(b[1].kind, VariableKind::Lifetime));
+    assert!(matches!(b[2].kind, VariableKind::Ty(TyVariableKind::Integer)) && matches!(b[3].kind, VariableKind::Lifetime));
+    // binder and placeholder of the same canonical universe agree
+    assert!(back.value.as_slice(I)[0] == leaf(0, y + 1, 0), "C16: binder and placeholder of one canonical universe disagree");
+    std::mem::forget(m);
+    cover!(y > x + 1);
+}
+vharness!(c16_q_binders_follow_the_map, 8, { binders_follow_the_map() });
 vharness!(c16_q_sparse_ty, 8, { sparse_and_out_of_range(0) });
 vharness!(c16_q_sparse_lifetime, 8, { sparse_and_out_of_range(1) });
 vharness!(c16_q_sparse_const, 8, { sparse_and_out_of_range(2) });
